@@ -57,7 +57,8 @@ CLAIMED = {
         design="4/C07"),
     "C08": dict(
         text="Every instance (TLC-enumerated and random) is aligned twice, as installed (CBC) and with cylp masked so the "
-             "library's own fallback branch runs (GLPK_MI); a probe on cvxpy.Problem.solve proves which solver ran; both "
+             "library's own fallback branch runs (GLPK_MI); a probe on cvxpy.Problem.solve logs which solver ran (a NOTE if it is "
+             "not the expected one: the statement fixes the results, not the choice); both "
              "results must be partitions / covers and both must be optimal by TLC's own search (not merely equal); a third "
              "configuration injects a cvxpy SolverError into the CBC solve (cylp importable, CBC failing at run time). "
              "Medium and dense continua beyond the search must at least get the same cost from both back-ends.",
@@ -78,7 +79,9 @@ CLAIMED = {
              "end, never below the optimum, equal when the window covers everything; the pre-fix take_until_limit is the "
              "mutant that must stall. Every such continuum is run through the real code under an iteration watchdog and "
              "its cost must be one TLC reaches; random continua x dissimilarities x window sizes are recorded per "
-             "iteration and judged by TraceFast.tla / TraceAlign.tla; fast-mode gamma jobs log the algorithm they used.",
+             "iteration and judged by TraceFast.tla / TraceAlign.tla (termination and results are violations; departures "
+             "from the modelled iteration scheme alone are NOTEs); fast-mode gamma jobs log the algorithm they used and "
+             "the fast-vs-exact decision is compared with the documented estimate where that is clear-cut.",
         note="The step model uses the positional dissimilarity on integer grids; other dissimilarities are bound through "
              "the recorded iterations (structure) and results (TraceAlign) only.",
         technique="TLA+ step model (FastAlign) model-checked by TLC incl. liveness; spec behaviours replayed into the code; iteration traces validated by TLC",
@@ -129,7 +132,8 @@ CLAIMED = {
              "for ThreadPoolExecutor (real distinct threads, one job at a time); real pools of 1/2/4/16 workers, repetition "
              "in one process and fresh processes with other PYTHONHASHSEED values complete the environments. All result "
              "vectors (observed, chance sequence, gamma, gamma-cat, gamma-k) of one configuration and seed must be "
-             "bit-identical; recorded pool events must show every draw in the main thread before its job's submission. "
+             "bit-identical (that is what is judged; whether the recorded pool events show every draw in the main thread before "
+             "its job's submission - the design GammaRun models - is reported as a NOTE only). "
              "GammaRun is also checked to refine GammaAtomic (compute_gamma as one atomic step from the seed).",
         note="Interleavings inside a job (numba, cvxpy, CBC) are not modelled; exact float equality is used because the "
              "unchanged tree shows no last-bit noise.",
@@ -184,7 +188,8 @@ CLAIMED = {
              "moved units - and each is presented as a real Alignment / SoftAlignment to check(), check(continuum) and both "
              "constructors with check_validity=True, also with slots listed in another order; larger random continua with "
              "mutated alignments are judged by TraceAlign's partition / cover clauses against the library's verdict.",
-        note="Candidate alignments range over the continuum's own (annotator, unit) pairs; foreign units are not generated.",
+        note="L2 candidate alignments range over the continuum's own (annotator, unit) pairs; L3 also places units in another "
+             "annotator's slot (at most once per foreign pair).",
         technique="TLC enumeration of all small cases with the spec's expected outcome, replayed into the code; TLC trace validation for larger ones",
         design="4/C17"),
     "C18": dict(
